@@ -113,21 +113,29 @@ def firstMatch (m : Nat → Bool) (p : Plugin) : Option Route := p.find? (fun r 
 inductive Act
   | url (u : Url)          -- `self.choice = …; needs_upstream = True`
   | lit (resp : Bytes)     -- `self.client.queue(choice)`
-  | fail (e : Err)
+  | fail (e : Err) (choice : Option Url)   -- raises `e`; `choice`: what `self.choice` was set to before
   deriving DecidableEq, Repr
+
+/-- `str(url)` (`Url.__str__`) decodes the truthy scheme / hostname / remainder with `text_` -/
+def strOk (u : Url) : Bool :=
+  (match u.scheme with | some x => utf8Valid x | none => true) &&
+  (match u.hostname with | some x => utf8Valid x | none => true) &&
+  (match u.remainder with | some x => utf8Valid x | none => true)
 
 /-- the matching branch for route `r` (`pick` = what `random.choice` indexes) -/
 def routeAct (cfg : Cfg) (pick : Nat) : Route → Act
   | .static _ urls =>
     match urls[pick]? with
-    | none => .fail .indexError                       -- `random.choice([])`
+    | none => .fail .indexError none                  -- `random.choice([])`
     | some raw =>
       match Px.Url.fromBytes cfg.allowedSchemes raw with
-      | .error e => .fail (urlErr e)
+      | .error e => .fail (urlErr e) none
       | .ok u => .url u
-  | .dynamic _ (.url u) => .url u
-  | .dynamic _ (.literal resp) => .lit resp
-  | .dynamic _ (.raises e) => .fail e
+  | .dynamic _ (.url u) =>
+    -- `self.choice = choice; needs_upstream = True; self._upstream_proxy_pass = str(self.choice)`
+    if strOk u then .url u else .fail .valueError (some u)
+  | .dynamic _ (.literal resp) => .lit resp      -- (`'{0} bytes'.format(len(choice))` cannot raise)
+  | .dynamic _ (.raises e) => .fail e none
 
 /-- the routes loop of `handle_request`: every plugin in order, within a plugin
     the first matching route (`break`), state threaded through; the `Bool` is
@@ -140,7 +148,8 @@ def routeLoop (cfg : Cfg) (m : Nat → Bool) (pick : Nat → Nat) :
     | none => routeLoop cfg m pick (i + 1) ps s needs
     | some r =>
       match routeAct cfg (pick i) r with
-      | .fail e => (s, needs, some e)
+      | .fail e none => (s, needs, some e)
+      | .fail e (some u) => ({ s with choice := some u }, true, some e)
       | .url u => routeLoop cfg m pick (i + 1) ps { s with choice := some u } true
       | .lit resp => routeLoop cfg m pick (i + 1) ps { s with client := s.client.queue resp } needs
 
